@@ -897,7 +897,11 @@ func (e *Env) call(x *ECall) Term {
 		if !ok {
 			e.fail("fn() needs a function name string")
 		}
-		return Term{S: vc.funcConst(name.Val), Sort: "Int"}
+		ft := Term{S: vc.funcConst(name.Val), Sort: "Int"}
+		if f := vc.P.funcs[name.Val]; f != nil {
+			ft.T = f.Type()
+		}
+		return ft
 	case "deref":
 		// deref(p): the value a pointer to a non-struct value points to
 		a := e.tr(x.Args[0])
@@ -990,6 +994,27 @@ func (e *Env) call(x *ECall) Term {
 		}
 		if sf.Rec {
 			return e.recCall(sf, x)
+		}
+		if sf.Abstract {
+			var sorts, as []string
+			for i, p := range sf.Params {
+				a := e.value(e.tr(x.Args[i]))
+				_, psort := e.resolveType(p.Type)
+				a, _ = e.coerceNil(a, Term{Sort: psort})
+				if a.Sort != psort {
+					e.fail("argument %d of %s has sort %s, want %s", i+1, sf.Name, a.Sort, psort)
+				}
+				sorts = append(sorts, psort)
+				as = append(as, a.S)
+			}
+			rt, rs := e.resolveType(sf.Result)
+			fn := "af_" + mangle(sf.Name)
+			vc.declareFun(fn, sorts, rs)
+			if vc.symsUsed == nil {
+				vc.symsUsed = map[string]bool{}
+			}
+			vc.symsUsed[sf.Name] = true
+			return Term{S: sx(fn, as...), Sort: rs, T: rt}
 		}
 		n := &Env{vc: vc, st: e.st, old: e.old, vars: map[string]Term{}, pkg: vc.P.logPkg.Types}
 		for i, p := range sf.Params {
